@@ -240,15 +240,28 @@ name come last, in creation order.  By construction a permutation of the tables.
 def visitOrder (w : World) (order : List Mask) : List Arch :=
   w.archs.mergeSort (fun a b => decide (order.idxOf a.mask ≤ order.idxOf b.mask))
 
-/-- `World::clear`: every archetype is emptied and every stored identifier freed, archetype by
-archetype in table order, row by row. -/
-def clear (w : World) (order : List Mask) : Out (World × List Val) :=
+/-- The column loop of `World::clear`: every archetype is emptied and every stored identifier
+freed, archetype by archetype in table order, row by row. -/
+def clearRaw (w : World) (order : List Mask) : Out (World × List Val) :=
   let visit := w.visitOrder order
   match freeAll w.alloc (visit.flatMap (·.ids)) with
   | .ub e => .ub e
   | .ok al =>
     .ok ({ w with archs := w.archs.map Arch.cleared, alloc := al, len := 0 },
          visit.flatMap Arch.values)
+
+/-- `Allocator::sort_free_from`: the free queue from position `n` on is sorted (ascending), the
+first `n` entries keep their order. -/
+def sortFreeFrom (a : Alloc) (n : Nat) : Alloc :=
+  { a with free := a.free.take n ++ (a.free.drop n).mergeSort (fun x y => decide (x ≤ y)) }
+
+/-- `World::clear`: the column loop, then the slots it freed are put in ascending order, so that
+the identifiers issued afterwards do not depend on the order the table iterator visits the
+archetypes in. -/
+def clear (w : World) (order : List Mask) : Out (World × List Val) :=
+  match w.clearRaw order with
+  | .ub e => .ub e
+  | .ok (w', drops) => .ok ({ w' with alloc := sortFreeFrom w'.alloc w.alloc.free.length }, drops)
 
 def setBit (m : Mask) (c : Nat) (b : Bool) : Mask := m.set c b
 
